@@ -129,7 +129,7 @@ def g_run(rep, cases, meta, sc, label, trace_every):
         rows.append({"d": c["d"], "e": c["e"], "n": c["n"], "c": c["c"], "sep": o["sep"], "thr": o["thr"], "sig": o["sig"]})
     nv.write_ndjson(inp, rows)
     nv.harness(BIN, ["numfmt-run", "--cases", inp, "--out", out, "--trace", trp, "--trace-every", str(trace_every)])
-    results = nv.read_ndjson_text(open(out).read())
+    results = nv.read_ndjson_text(open(out, encoding="utf-8").read())
     if len(results) != len(cases):
         raise nv.ToolError("harness returned %d results for %d cases" % (len(results), len(cases)))
     drift = []
